@@ -170,6 +170,23 @@ def r1_one_collector(ctx):
                         rep.ob('C15.R1', ctx.loc(f, c), 'pytest item name (through %s)' % h.name, ok,
                                'item name is DocTest.unique_callname (the native identifier)' if ok else 'pytest items are not named by unique_callname', anchor=COLLECT)
     rep.floor('C15.R1', 'pytest item constructions', n_items, 1)
+    # every collected example becomes exactly one pytest item: one yield per iteration of the loop over the examples, on every path
+    for q in (COLLECT, 'xdoctest.plugin.XDoctestTextfile.collect'):
+        fq = ctx.func(q)
+        gq = ctx.cfg(fq)
+        ys = [x for x in gq.nodes if x.kind == 'stmt' and not x.dup and any(isinstance(y, (ast.Yield, ast.YieldFrom)) for y in ast.walk(x.ast))]
+        loops = [x for x in gq.nodes if x.kind == 'for' and not x.dup and any(graph.in_loop_body(y, x.ast) for y in ys)]
+        need(loops or not ys, 'C15.R1: yields outside a loop in %s' % q)
+        for lp in loops:
+            entry_, cut_ = graph.region_of_loop(gq, lp)
+            res = graph.count_events(entry_, lambda x: any(x is y for y in ys), lambda x: x is lp, efilter=graph.normal_only)
+            if not res:
+                continue
+            (_, lo, hi, _w1, _w2) = next(iter(res.values()))
+            rep.ob('C15.R1', ctx.loc(fq, lp.ast), '%s: items yielded per collected example' % q.split('.')[-2], (lo, hi) == (1, 1),
+                   'exactly one item per example on every path' if (lo, hi) == (1, 1) else
+                   'between %d and %d items are yielded for one collected example: under pytest a doctest the native runner runs is %s' % (lo, hi, 'missing' if lo == 0 else 'duplicated'),
+                   anchor=q)
 
 
 def r2_one_option_table(ctx):
@@ -487,6 +504,7 @@ RN = 'xdoctest/runner.py'
 DE = 'xdoctest/doctest_example.py'
 MA = 'xdoctest/__main__.py'
 VARIANTS = [
+    fire('items-only-through-the-old-pytest-api', 'C15.R1', ('xdoctest/plugin.py', "                yield XDoctestItem.from_parent(\n                    self, name=name, dtest=dtest)\n            else:\n                # direct construction is deprecated\n                yield XDoctestItem(name, self, dtest=dtest)\n", "                XDoctestItem.from_parent(\n                    self, name=name, dtest=dtest)\n            else:\n                # direct construction is deprecated\n                yield XDoctestItem(name, self, dtest=dtest)\n", 2)),
     fire('anything-ran-always-true', 'C15.R4', (DE, "        return len(self.logged_stdout) > 0\n", "        return len(self.logged_stdout) >= 0\n")),
     fire('pytest-skip-escapes-the-native-run', 'C15.R7', (DE, "                except (exceptions.ExitTestException,\n                        exceptions._pytest.outcomes.Skipped) as ex:\n", "                except exceptions.ExitTestException as ex:\n")),
     fire('skipped-reraised-in-raise-mode', 'C15.R3b', (DE, "                except (exceptions.ExitTestException,\n                        exceptions._pytest.outcomes.Skipped) as ex:\n", "                except (exceptions.ExitTestException,\n                        exceptions._pytest.outcomes.Skipped) as ex:\n                    if on_error == 'raise':\n                        raise\n")),
